@@ -316,6 +316,24 @@ def check_write_inventory(repo, rep, rule):
             via_deco = ALLOWED_CONE_WRITES.get((_canonical(repo, s.obj.name), DECO, s.detail))
             reasons_ = [r_ if r_ is not None else via_deco for r_ in reasons_]
         reason = '; '.join(sorted(set(reasons_))) if all(r_ is not None for r_ in reasons_) else None
+        # a printer enters the live registry only inside the containment wrapper: pretty_dispatch.register(T, partial(<wrapper>, fn)) -
+        # registered bare, its failures are not contained at the value, cycles through it are not cut and its result is not checked
+        if reason is not None and s.detail == 'register' and isinstance(s.node, ast.Call) and len(s.node.args) >= 2 and rule.startswith(('C14', 'C13')):
+            from engine import roles as _roles
+            wr_ = _roles.name(repo, 'wrapper')
+            v_ = s.node.args[1]
+            wrapped = isinstance(v_, ast.Call) and call_name(v_).split('.')[-1] == 'partial' and v_.args and src(v_.args[0]).split('.')[-1] == wr_
+            if not wrapped and isinstance(v_, ast.Name):
+                # a local name bound once to such a partial
+                binds = [a_.value for a_ in ast.walk(s.fn.node) if isinstance(a_, ast.Assign) and len(a_.targets) == 1
+                         and isinstance(a_.targets[0], ast.Name) and a_.targets[0].id == v_.id]
+                wrapped = len(binds) == 1 and isinstance(binds[0], ast.Call) and call_name(binds[0]).split('.')[-1] == 'partial' \
+                    and binds[0].args and src(binds[0].args[0]).split('.')[-1] == wr_
+            if not wrapped:
+                n += 1
+                rep.fail(rule, 'cone-write:%s:%s:registers-unwrapped' % (s.obj.name, s.fn.qualname), s.where,
+                         '%s registers %s for a class without the wrapper %s (pretty_dispatch.register(T, partial(%s, fn)) is the only form that '
+                         'contains a failing printer at its value, cuts cycles through it and checks what it returns)' % (s.fn.key, src(v_), wr_, wr_))
         rep.check(reason is not None, rule, 'cone-write:%s:%s:%s' % key, s.where,
                   reason or '',
                   '%s %s module-level %s %s from inside the printing pipeline; only the listed idempotent writes are '
